@@ -41,6 +41,8 @@ ASSUMPTIONS = [
 ]
 
 POOL = [np.array([0.3, -0.4, 0.8]), np.array([1.5, 0.9, -0.6]), np.array([0.3, -0.4, 0.8])]
+# (layer B only) a point close to POOL[0], but four times further away than the separation 1e-3 (1 + |x|) of the property:
+POOL.append(POOL[0] + 4e-3 * (1.0 + np.abs(POOL[0])))
 START = np.array([-0.7, 1.1, 0.2])  # start vector handed to run_step(variables=) instead of the configured initial values
 TARGET = np.array([0.5, 0.1, -0.2])
 A_NL = np.array([[1.0, -2.0, 0.5]])
@@ -310,6 +312,8 @@ def stack_config(case: dict[str, Any]) -> dict[str, Any]:
     }
     if case["method"] == "cobyla":
         del cfg["variables"]["lower_bounds"], cfg["variables"]["upper_bounds"]
+    if case.get("tolerance") is not None:  # the convergence tolerance of the algorithm says nothing about which points are the same
+        cfg["optimizer"]["tolerance"] = case["tolerance"]
     if case["cons"] in ("nl", "both"):
         cfg["nonlinear_constraints"] = {"lower_bounds": [0.0], "upper_bounds": [1.0]}
     if case["cons"] in ("lin", "both"):
@@ -438,13 +442,14 @@ def hypothesis_shard(item: dict[str, Any]) -> Collector:
         cons = draw(st.sampled_from(["none", "nl", "lin", "both"])) if mname in CONSTRAINT_CAPABLE else "none"
         r_n = draw(st.integers(1, 3))
         n_con = 1 if cons in ("nl", "both") else 0
-        batches = [[0], [1], [2]] if mname != "de-vec" else [[0], [1], [0, 1], [1, 0], [0, 2]]
+        batches = [[0], [1], [2], [3]] if mname != "de-vec" else [[0], [1], [0, 1], [1, 0], [0, 2], [3], [3, 1], [0, 3]]
         seq = [[draw(st.integers(0, 5)), draw(st.sampled_from(batches))] for _ in range(draw(st.integers(1, 8)))]
         mask = draw(st.sampled_from([None, None, [True, False, True], [False, True, True]]))
         if cons in ("lin", "both") and mask is not None and not mask[0]:
             mask = None
         return {"layer": "B", "method": mname, "cons": cons, "split": draw(st.booleans()), "speculative": draw(st.booleans()),
                 "weights": [draw(st.sampled_from([1.0, 2.0])) for _ in range(r_n)], "mask": mask, "start": draw(st.booleans()), "qualified": draw(st.booleans()),
+                "tolerance": draw(st.sampled_from([None, None, 1e-6, 0.05])),
                 "slopes": [draw(st.sampled_from([-1.0, 0.5, 1.0, 2.0])) for _ in range(r_n * (1 + n_con) * 3)],
                 "offsets": [draw(st.sampled_from([-0.5, 0.0, 1.0])) for _ in range(r_n * (1 + n_con))], "sequence": seq}
 
@@ -453,7 +458,8 @@ def hypothesis_shard(item: dict[str, Any]) -> Collector:
         col.case(case, nontrivial=info["new_point_first"], classes=(
             "layer-B", f"method={case['method']}", f"cons={case['cons']}", "split" if case["split"] else "combined",
             "speculative" if case["speculative"] else "plain", "masked" if case["mask"] else "unmasked",
-            "start=argument" if case.get("start") else "start=config"))
+            "start=argument" if case.get("start") else "start=config", f"tolerance={case.get('tolerance')}",
+            "close-points" if any(3 in p_ for _, p_ in case["sequence"]) else "far-points"))
 
     run_hypothesis(col, cases(), body, seed=item["seed"], max_examples=item["examples"])
     return col
